@@ -106,8 +106,9 @@ def token_param_writes(P, u, fname, opaque=('tokenize', 'new_file', 'quote_strin
             o.meta['orig_next'] = nx
             return nx
         return NotImplemented
-    it = PInterp(P, u, {'opaque': [c for c in opaque if c != fname], 'cut': {'format': None}, 'track_stores': True, 'loop_limit': 3, 'lazy_field': hook,
-                        'models': {'calloc': lambda it_, ctx, n, args: Sym(ctx.fresh('buf'), 'char *'), 'strncpy': lambda it_, ctx, n, args: args[0]}})
+    def interp(loop_limit):
+        return PInterp(P, u, {'opaque': [c for c in opaque if c != fname], 'cut': {'format': None}, 'track_stores': True, 'loop_limit': loop_limit, 'lazy_field': hook,
+                              'models': {'calloc': lambda it_, ctx, n, args: Sym(ctx.fresh('buf'), 'char *'), 'strncpy': lambda it_, ctx, n, args: args[0]}})
 
     def mk(ctx):
         a = []
@@ -121,7 +122,15 @@ def token_param_writes(P, u, fname, opaque=('tokenize', 'new_file', 'quote_strin
         return a
     res = set()
     n = 0
-    for ctx, out in it.explore(fname, mk, max_paths=4000):
+    paths = None
+    for ll, cap in ((3, 800), (1, 4000)):   # nested loops over the characters of every token: one generic round reaches the same store statements
+        try:
+            paths = interp(ll).explore(fname, mk, max_paths=cap)
+            break
+        except AnalysisBroken as e:
+            if 'path explosion' not in str(e) or ll == 1:
+                raise
+    for ctx, out in paths:
         n += 1
         for e in ctx.events:
             if e[0] == 'fstore' and isinstance(e[1], Obj) and e[1].meta.get('input') is not None:
